@@ -65,6 +65,17 @@ func runC19(a *A) {
 	c19R4(a)
 	c19R6(a)
 	c19R7(a)
+	{
+		w := a.W
+		roots := append(methodsOf(w, w.Repl, "MariadbGTIDSet"), methodsOf(w, w.Repl, "Mysql56GTIDSet")...)
+		roots = append(roots, methodsOf(w, w.Repl, "MariadbGTID")...)
+		roots = append(roots, methodsOf(w, w.Repl, "Mysql56GTID")...)
+		roots = append(roots, methodsOf(w, w.Repl, "SID")...)
+		for _, n := range []string{"parseMysql56GTID", "parseMysql56GTIDSet", "parseMariadbGTID", "parseMariadbGTIDSet", "ParseGTID", "ParseGTIDSet", "DecodeGTID", "EncodeGTID", "NewMysql56GTIDSetFromSIDBlock", "ParseSID"} {
+			roots = append(roots, w.fn(w.Repl, n))
+		}
+		statelessRule(a, "C19-R8", "GTID printing, parsing and set operations", roots, w.Repl)
+	}
 }
 
 // implementers of an interface among the named types of the replication package.
